@@ -890,6 +890,16 @@ fn syscall_fault_case(cx: &mut Cx) {
                                 cx.violation(&format!("fault-during-flush-lost-entries:{}", f.split('=').next().unwrap_or("")), format!("{} entries before, {} after {what}", b.len(), a.len()), json!({"fault": what}));
                             }
                         }
+                        if err.contains("second=ok") {
+                            cx.count("syscall-fault:failed-flush-followed-by-a-successful-one");
+                            for l in err.lines() {
+                                if let Some(added) = l.strip_prefix("added=").or_else(|| l.strip_prefix("added2=")) {
+                                    if !a.keys().any(|(_, ad)| ad == added.trim()) {
+                                        cx.violation("entries-of-a-failed-flush-lost-by-the-next-successful-flush", format!("the flush failed under {what}; the same store then added one more address and flushed successfully, but {added} (added before the {} flush) is not in the file", if l.starts_with("added2") { "second" } else { "failed" }), json!({"fault": what}));
+                                    }
+                                }
+                            }
+                        }
                         if reported_ok {
                             for l in err.lines() {
                                 if let Some(added) = l.strip_prefix("added=") {
@@ -974,7 +984,17 @@ fn flush_once(path: &Path, seed: u64, with_cleanup: bool) -> i32 {
     let mut out = String::new();
     match r {
         Ok(()) => out.push_str("flush=ok\n"),
-        Err(e) => out.push_str(&format!("flush=err({e:?})\n")),
+        Err(e) => {
+            out.push_str(&format!("flush=err({e:?})\n"));
+            // the fault is over (one injection per process): the same store learns one more address and flushes again
+            let p = peer(&mut rng);
+            let a = Multiaddr::empty().with(Protocol::Ip4(std::net::Ipv4Addr::new(10, 9, rng.gen(), rng.gen_range(1..255)))).with(Protocol::Udp(rng.gen_range(1024..65000))).with(Protocol::QuicV1).with(Protocol::P2p(p));
+            store.add_addr(a.clone());
+            match store.sync_and_flush_to_disk(with_cleanup) {
+                Ok(()) => out.push_str(&format!("second=ok\nadded2={a}\n")),
+                Err(e) => out.push_str(&format!("second=err({e:?})\n")),
+            }
+        }
     }
     for a in added {
         out.push_str(&format!("added={a}\n"));
